@@ -48,9 +48,44 @@ def explicitL (S : Schema) : List DNode → List DNode
     | none => explicitL S ns
 end
 
+mutual
+/-- the complement of `explicit`: the default-flagged terms with a schema default value, under their ancestors (list keys kept) -/
+def dfltPart (S : Schema) : DNode → Option DNode
+  | .inner s f m ks =>
+    let ks' := dfltPartL S ks
+    if ks'.isEmpty then none else some (.inner s f m (keysOf S ks ++ ks'))
+  | .term s f m v => if f.dflt && isSchemaDflt S s v then some (.term s f m v) else none
+def dfltPartL (S : Schema) : List DNode → List DNode
+  | [] => []
+  | n :: ns =>
+    match dfltPart S n with
+    | some n' => n' :: dfltPartL S ns
+    | none => dfltPartL S ns
+end
+
+/-- every node of `xs` has a counterpart (same instance) among `ys`, recursively -/
+def subForest (S : Schema) : (fuel : Nat) → List DNode → List DNode → Bool
+  | 0, _, _ => false
+  | fuel + 1, xs, ys =>
+    xs.all fun x =>
+      S.isKey x.sid ||
+      ys.any fun y => x.sid == y.sid && (if x.isTerm then x.val == y.val else sameInst S x y) && subForest S fuel x.kids y.kids
+
+/-- Without `LYD_DIFF_DEFAULTS`: default nodes in `x` (the tree after apply) that `y` (the wanted tree) does not have.  What
+re-validation does with them depends on their `LYD_NEW` flags and on the cases of the choices they belong to
+(`lyd_validate_new`), which is not modelled: the verdict is then `unknown`. -/
+def staleDefaults (S : Schema) (x y : List DNode) : Bool :=
+  !subForest S (heightL x + 1) (dfltPartL S x) y
+
 /-- equality of data trees at C13's observation point; `dflt`: the diffs were made with `LYD_DIFF_DEFAULTS` -/
 def obsEq (S : Schema) (dflt : Bool) (x y : List DNode) : Bool :=
   if dflt then dataEqL true x y else dataEqL false (explicitL S x) (explicitL S y)
+
+/-- the verdict token of the driver: `same | differs | unknown` -/
+def obsVerdict (S : Schema) (dflt : Bool) (x y : List DNode) : String :=
+  if !obsEq S dflt x y then "differs"
+  else if !dflt && staleDefaults S x y then "unknown"
+  else "same"
 
 /-- `apply` with the error type of this component -/
 def applyD (S : Schema) (data d : List DNode) : Except DiffErr (List DNode) :=
